@@ -288,6 +288,44 @@ def _rejections(t: Tally):
             _check_encode(t, v, data)
 
 
+def _task_streams_of_constructed(task):
+    """Many constructed packets in one stream, delivered piecewise, with the framer's buffer trimmed again and again (the trim literal rewritten
+    to a small number): every packet comes back as constructed and its accessors say what was put in."""
+    import io
+    from mc.checks.c02 import _pkmod_cached
+    from mc.seams import ScriptedSocket, pull
+    from space_packet_parser import packets as pk
+    t = Tally()
+    fields = [{"version_number": i % 8, "type": i % 2, "secondary_header_flag": (i // 2) % 2, "apid": (i * 409) % 2048, "sequence_flags": i % 4,
+               "sequence_count": (i * 1031) % 16384} for i in range(task["n"])]
+    pkts = [pk.create_ccsds_packet(bytes(((i * 7 + j) & 0xFF) for j in range(1 + (i * 5) % 23)), **f) for i, f in enumerate(fields)]
+    stream = b"".join(bytes(p) for p in pkts)
+    for thr in task["thresholds"]:
+        mod = _pkmod_cached(thr)
+        if mod is None:
+            continue
+        for source, r in (("bytesio", 1), ("bytesio", 7), ("bytesio", 64), ("bytesio", None), ("bytes", None), ("socket", 5), ("socket", 64)):
+            t.evals += 1
+            t.nontrivial += 1
+            src = stream if source == "bytes" else io.BytesIO(stream) if source == "bytesio" else ScriptedSocket(stream, lambda n, remaining, key, s_: min(n, remaining, 11), inspect=False)
+            try:
+                items, end = pull(mod.ccsds_generator(src, buffer_read_size_bytes=r), horizon=len(pkts) + 2)
+                bad = None
+                if [bytes(x) for x in items[:len(pkts)]] != [bytes(p) for p in pkts] or len(items) != len(pkts):
+                    bad = f"{len(items)} items, first difference at #{next((i for i, (a, b) in enumerate(zip(items, pkts)) if bytes(a) != bytes(b)), min(len(items), len(pkts)))}"
+                else:
+                    for x, f in zip(items, fields):
+                        if any(getattr(x, k_) != v for k_, v in f.items()) or x.data_length != len(x) - 7:
+                            bad = "accessors of a yielded packet differ from the fields it was constructed with"
+                            break
+            except Exception as e:  # noqa: BLE001
+                bad = f"raised {type(e).__name__}: {str(e)[:80]}"
+            if bad:
+                t.violation({"kind": "reframe-stream", "source": source, "trimmed": thr is not None}, {"stream_of_constructed": True, "n": task["n"], "threshold": thr, "source": source, "r": r},
+                            observed=bad, note="a stream of constructed packets is not re-framed into those packets")
+    return t
+
+
 def run(ctx):
     words = list(range(1 << 16))
     tally = fan_out(_task_word1, [{"words": ch} for ch in chunked(words, 32)], jobs=ctx.jobs, seed=ctx.seed)
@@ -313,6 +351,7 @@ def run(ctx):
                if ctx.quick is False or (c[1] != c[2] or c[0] == 5)]
     tally.merge(fan_out(_task_access_orders, [{"combos": ch, "triples": not ctx.quick} for ch in chunked(ocombos, 48)], jobs=ctx.jobs, seed=ctx.seed))
     _rejections(tally)
+    tally.merge(fan_out(_task_streams_of_constructed, [{"n": n, "thresholds": [None, 0, 17, 40, 200]} for n in (5, 40, 300)], jobs=3, seed=ctx.seed))
     tally.sample({"fields": {"version_number": 7, "type": 1, "secondary_header_flag": 1, "apid": 2047,
                              "sequence_flags": 3, "sequence_count": 16383}, "data_len": 65536})
     tally.sample({"decode": "a5a5" + "0003" + "0002" + "010203"})
@@ -338,6 +377,9 @@ def _in_range(v, n):
 
 
 def replay(case):
+    if case.get("stream_of_constructed"):
+        t = _task_streams_of_constructed({"n": case["n"], "thresholds": [case["threshold"]]})
+        return next((v for v in t.violations if v["case"].get("source") == case.get("source") and v["case"].get("r") == case.get("r")), None)
     from space_packet_parser import packets as pk
     t = Tally()
     with owned_clock():
